@@ -30,6 +30,10 @@ CLAIMED = {
    text="Closed-handle matrix: 9 FS kinds x 5 handle kinds x every ordered pair of the 11 methods called after Close (each must fail, never panic, and match ErrClosed wherever a closed *os.File does); sibling scripts record every other handle's offset and usability around each call; lifecycle histories (40/1500 per FS kind) interleave Remove/Rename/re-create of the path with writes through handles opened earlier and compare the set of existing names with the os package after every step.",
    note="Reference is *os.File / os on Linux. Known: writing through a handle after Remove/Rename re-creates the old name (F20, keyed by handle operation).",
    technique="runtime monitor of handle life-cycle (post-Close calls, sibling isolation, unlink-then-write) differential against os.File"),
+ "C04": dict(level="exploration", design="4/C04",
+   text="Every helper/method (17 single-name operations; Rename and Symlink with the invalid name first, second or both) x 8 FS kinds (mem, keyvalue over a plain Store, mount incl. names invalid only after a mount point, generic Sub, Sub of os.FS, cache, tar, os.FS) x 2 pre-states x an enumerated corpus around the ValidPath boundary plus 120 (quick) / 2000 (thorough) fuzzed byte strings filtered by !ValidPath: each call must match ErrInvalid and leave the snapshots of all constituent file systems unchanged; valid names with backslash/colon/dots must never be refused or split. For os.FS the same calls also run in a helper process under strace -e trace=%file with marker syscalls and positive controls: no file syscall may appear between the markers of an invalid-name call.",
+   note="Operations a subject does not support at all (ErrNotImplemented for valid names) are skipped for that subject. The strace monitor follows the helper's locked OS thread; valid-name control calls must show file syscalls or the run is inconclusive. Windows conventions are not exercised here (no Windows kernel).",
+   technique="runtime monitor over an enumerated+fuzzed invalid-name corpus with whole-composition snapshots, plus strace as an external kernel-boundary monitor"),
 }
 NOT_YET = "monitor not built yet in this session (see DESIGN.md section 4 for the planned runtime monitor)"
 props = [json.loads(l)["id"] for l in open("/verif/properties.jsonl")]
